@@ -109,3 +109,36 @@ func VerifC11_q_listThenRelease() {
 	verifAssert("C11/release-key", got.KeyObj.KeyInDB == key, "posting a listed entry back addresses a different key than the one that holds the IP")
 	verifAssert("C11/release-ip", got.IP.Equal(stored.IP), "posting a listed entry back addresses a different IP")
 }
+
+
+// SOLVER: cvc5
+// BOUND: one release request with two listed entries (keys of any two of the 6 shapes, symbolic names as above, pool-less), each posted as listed or with appType omitted when it reads "statefulset": both entries must reach the plugin with their own stored key, in order
+func VerifC11_q_listThenReleaseBatch() {
+	s1, s2 := nondetChoice(5), nondetChoice(5)
+	k1, k2 := vStoredKey(s1, false), vStoredKey(s2, false)
+	verifAssume(k1 != k2)
+	e1 := convert(&floatingip.FloatingIP{Key: k1, IP: net.ParseIP("10.1.0.10")})
+	e2 := convert(&floatingip.FloatingIP{Key: k2, IP: net.ParseIP("10.1.0.11")})
+	if nondetBool() {
+		verifAssume(e1.AppType == "statefulset")
+		e1.AppType = ""
+	}
+	if nondetBool() {
+		verifAssume(e2.AppType == "statefulset")
+		e2.AppType = ""
+	}
+	var got []*schedulerplugin.ReleaseRequest
+	c := &Controller{podLister: vNoPods{}, releaseFunc: func(r *schedulerplugin.ReleaseRequest) error {
+		got = append(got, r)
+		return nil
+	}}
+	verifSetRequestEntity(ReleaseIPReq{IPs: []FloatingIP{e1, e2}})
+	c.ReleaseIPs(vReq, vResp)
+	verifReach("batch-posted")
+	verifAssert("C11/batch-both-released", len(got) == 2, "a batch of two listed entries did not produce two release requests")
+	if len(got) != 2 {
+		return
+	}
+	verifAssert("C11/batch-key-1", got[0].KeyObj.KeyInDB == k1, "first entry of a batch addresses a different key than the one that holds its IP")
+	verifAssert("C11/batch-key-2", got[1].KeyObj.KeyInDB == k2, "second entry of a batch addresses a different key than the one that holds its IP")
+}
